@@ -82,7 +82,7 @@ def main():
                 if kind == 'good':
                     lines.append(f'{p},{p % 3},{p % 2}\n')
                 else:
-                    lines.append([f'{p},1\n', f'{p},1,0,9\n', '\n'][p % 3])
+                    lines.append([f'{p},1\n', f'{p},1,0,9\n', '\n', f'"{p},1",0\n'][p % 4])     # the last: 2 fields, but as many raw delimiters as a good row
             jobs.append({'op': 'run_stream', 'columns': cols, 'lines': lines, 'opts': {'log_parse': False},
                          'args': {'minibatch_size': MB, 'subsampling': SS, 'heuristic': 'Constant'}})
         got = PC.pipe_eval(jobs, modules=['pipe_ops'])
@@ -95,7 +95,7 @@ def main():
                 V.violation('raises:' + key, f'estimate_importances_minibatches failed: {PC.failure_text(r)}', job)
                 continue
             ev = r['ok']['events']
-            real_batches = [[int(i) for i in e['ids']] for e in ev if e['e'] == 'batch']
+            real_batches = [[int(i) if str(i).isdigit() else str(i) for i in e['ids']] for e in ev if e['e'] == 'batch']
             inv_events = [e['n'] for e in ev if e['e'] == 'invalid']
             real_invalid = sum(inv_events)
             observed_invalid[0] += len(inv_events)
@@ -191,8 +191,13 @@ def main():
                 V.violation('trace-rejected:' + key, f'TraceStreaming rejects event #{idx} of {len(trace)}: {json.dumps(ev)[:400]}', rep)
             nb = len([e for e in trace if e['e'] == 'batch'])
             exp_nb = actual_good // MB + (1 if actual_good % MB > 1024 else 0)
-            if nb != exp_nb and res.ok:
-                raise E.MachineryError(f'{key}: trace accepted with {nb} batches, generator intended {exp_nb}')
+            # the generated file knows which lines are well-formed (CSV field count = header): the parser must agree
+            wrong = [e for e in trace if e['e'] == 'parse' and 1 <= e['pos'] <= len(kinds) and (e['nf'] == len(job['columns'])) != (kinds[e['pos'] - 1] == 'good')]
+            if wrong:
+                ln = job['lines'][wrong[0]['pos']] if wrong[0]['pos'] < len(job['lines']) else ''
+                V.violation('malformed:' + key, f'{len(wrong)} rows classified against their CSV field count, e.g. line {wrong[0]["pos"]} {ln!r} ({"well-formed" if kinds[wrong[0]["pos"] - 1] == "good" else "malformed"}) parsed into {wrong[0]["nf"]} fields for {len(job["columns"])} columns', rep)
+            elif nb != exp_nb and res.ok:
+                V.violation('batches:' + key, f'{nb} batches consumed; the file has {actual_good} well-formed selected rows, i.e. {exp_nb} batches under the reference semantics', rep)
             V.count(evaluations=1, nontrivial=1 if ('bad' in kinds or extra) else 0, traces=1)
             if n == 0:
                 V.add_sample({'fullscale_run': rep, 'events': len(trace), 'first_events': trace[:2], 'batches': nb})
@@ -254,4 +259,9 @@ if __name__ == '__main__':
         sys.exit(main())
     except E.MachineryError as e:
         print(f'MACHINERY-FAILURE {PID}: {e}', file=sys.stderr)
+        sys.exit(2)
+    except Exception as e:  # unexpected harness error: machinery failure, never a verdict
+        import traceback
+        traceback.print_exc()
+        print(f'MACHINERY-FAILURE {PID}: unexpected {type(e).__name__}: {e}', file=sys.stderr)
         sys.exit(2)
